@@ -164,10 +164,22 @@ class SymTimestamp:
 
 
 class SymDate:
+    """calendar day number (days since EPOCH) of a symbolic instant"""
+
     def __init__(s, d):
         s.d = d
 
-    def __eq__(s, o): return SymBool(s.d == o.d)
+    def _o(s, o):
+        if isinstance(o, SymDate):
+            return o.d
+        raise TypeError(type(o))
+
+    def __eq__(s, o): return SymBool(s.d == s._o(o)) if isinstance(o, SymDate) else False
+    def __ne__(s, o): return SymBool(s.d != s._o(o)) if isinstance(o, SymDate) else True
+    def __lt__(s, o): return SymBool(s.d < s._o(o))
+    def __le__(s, o): return SymBool(s.d <= s._o(o))
+    def __gt__(s, o): return SymBool(s.d > s._o(o))
+    def __ge__(s, o): return SymBool(s.d >= s._o(o))
     __hash__ = None
 
 
